@@ -22,6 +22,17 @@ def decorate_bytes(rng, d):
             out += bytes([rng.choice([0, 0x80, 0xBF, 0xC0, 0xFF, 0xE2, 0x0D])])
     return bytes(out)
 
+def address_of(digits):
+    """the aircraft address of a frame of the nine formats that carry one (by Annex 10: the AA field, or AP xor parity)"""
+    n = len(digits) * 4
+    v = int(digits, 16)
+    df = v >> (n - 5)
+    if df in (11, 17, 18):
+        return (v >> (n - 32)) & 0xFFFFFF
+    if df in (0, 4, 5, 16, 20, 21):
+        return (v & 0xFFFFFF) ^ F.crc24(v >> 24, n - 24)
+    return None
+
 class C02(PropBase):
     id = "C02"
     corr_fields = ['df']
@@ -113,7 +124,9 @@ class C02(PropBase):
         # table level: decorated vs plain, one-line segments
         accepted = [(b, t) for (b, t), il in zip(lines, im) if il != "msg -"]
         rng.shuffle(accepted)
-        for (b, tag) in accepted[: 60 if tier == "quick" else 600]:
+        # frames of aircraft at the ends of the address space: all ones and one are addresses like any other
+        ends = [(gen.rand_frame(rng, k, a).encode(), "address %06X" % a) for k in ("df11", "tc11", "df4", "df20", "df5", "df21") for a in (0xFFFFFF, 1, 0xFFFFFE)]
+        for (b, tag) in ends + accepted[: 60 if tier == "quick" else 600]:
             digits = "".join(chr(c) for c in b if chr(c) in "0123456789abcdefABCDEF").upper()
             for (u, r) in ((False, False), (True, True)):
                 # .. and the same line as the last line of a file that does not end in a line feed (case c: plain, case d: decorated)
@@ -130,6 +143,14 @@ class C02(PropBase):
                     self.fail(rep, f"decoration changes the result of processing: {b[:80]!r} vs {digits}",
                               {"ops": ops, "decorated_hex": b.hex(), "plain": digits})
                     return
+                # "processed": the aircraft the frame is from is in the table afterwards (address zero is no aircraft)
+                adr = address_of(digits[-28:] if len(digits) in (28, 40) else digits[-14:])
+                if adr:
+                    got_rows = gen.parse_dump(ci.get("b", []))
+                    if adr not in got_rows:
+                        self.fail(rep, f"the line {digits} is a frame of aircraft {adr:06X}, but after it was read the table holds {sorted('%06X' % x for x in got_rows)}",
+                                  {"ops": ["reset", gen.cfg_op(use_update=u, relaxed=r)] + gen.seg([digits]) + ["dump"], "plain": digits, "address": adr})
+                        return
                 for tag2 in ("c", "d"):
                     if [l for l in ci.get(tag2, []) if not l.startswith("seg")] != [l for l in ci.get("b", []) if not l.startswith("seg")]:
                         self.fail(rep, f"a frame on the last line of a file without a final line feed is processed differently: "
